@@ -434,8 +434,8 @@ func genC04(r *rand.Rand, tier string) []Case {
 func init() {
 	register(&Prop{
 		ID: "C04", Num: 4,
-		Gen: genC04,
-		New: func() Case { return &c04Case{} },
+		Gen:  genC04,
+		New:  func() Case { return &c04Case{} },
 		Rule: "writer programs of Write/WriteSync/Seek(back to a boundary)/Close over adversarial payloads (nil, empty, marker bytes and proper marker prefixes at the end of a payload, leading zero, sizes within +-2 of a buffer size) x 4 compression types x write/read buffer sizes {1,2,7,16,64,4096,1Mi} x scan window {4,5,7,16,4096} (+ direct I/O when the file system allows); observed: returned offsets, Size, file bytes, sequential read, ReadNextAt at every surviving offset, a random read/skip program, SeekNext from every byte offset (sampled for files > 600 bytes). Non-trivial: >=2 records and one of {nil, empty, marker byte, seek-back, size within +-2 of a buffer}.",
 		Shrink: func(cs Case) []Case {
 			c := cs.(*c04Case)
